@@ -221,7 +221,130 @@ func (p c15) profile(c *core.Ctx) {
 	c.Nontrivial(fmt.Sprintf("profile|%s|%d|%T", prof, port, pl))
 }
 
+// preloaded: the application is handed a configure that its owner has already initialised with a first source (to read
+// bootstrap settings) - or that merely holds a value stored with Set; sources added through the application's options
+// are merged on top like for a fresh configure: exclusive keys visible, later values win.
+func (p c15) preloaded(c *core.Ctx) {
+	port, port2 := 8000+c.Rng.Intn(100), 9000+c.Rng.Intn(100)
+	mode := []string{"fast", "safe", "dry"}[c.Rng.Intn(3)]
+	cfg := configure.NewConfigure()
+	cfg.SetBinder(binder.NewViperBinder("yaml"))
+	how := c.Rng.Intn(3)
+	var err error
+	guard := func(f func() error) {
+		defer func() {
+			if r := recover(); r != nil {
+				err = fmt.Errorf("panic: %v", r)
+			}
+		}()
+		err = f()
+	}
+	switch how {
+	case 0, 1:
+		cfg.AddLoaders(loader.NewRawLoader([]byte(fmt.Sprintf("server:\n  port: %d\n  host: base-host\n", port))))
+		guard(cfg.Initialize)
+	default:
+		cfg.Set("boot.flag", "on")
+		cfg.AddLoaders(loader.NewRawLoader([]byte(fmt.Sprintf("server:\n  port: %d\n  host: base-host\n", port))))
+	}
+	if err != nil {
+		c.Fail("", fmt.Sprintf("the owner's Initialize failed: %v", err), nil)
+		return
+	}
+	added := loader.NewRawLoader([]byte(fmt.Sprintf("server:\n  port: %d\n  mode: %s\nextra:\n  only: x\n", port2, mode)))
+	ops := []app.SettingOption{app.SetLogger(world.Logger), app.SetConfigure(cfg)}
+	if how == 1 {
+		ops = append(ops, app.AddConfigLoader(added), app.AddConfigLoader(loader.NewArgsLoader([]string{"prog", "--app.config=cli.k=v"})))
+	} else {
+		ops = append(ops, app.AddConfigLoader(added))
+	}
+	a := app.NewApp()
+	guard(func() error { return a.Run(ops...) })
+	c.AddEvaluations(1)
+	c.Count("starts", 1)
+	c.Count("starts_with_a_preloaded_configure", 1)
+	detail := map[string]any{"how (0/1 initialised by its owner, 2 a value stored with Set)": how}
+	if err != nil {
+		c.Fail("", fmt.Sprintf("application with a pre-loaded configure: %v", err), detail)
+		return
+	}
+	got := fmt.Sprint(cfg.Get("server.port"), cfg.Get("server.host"), cfg.Get("server.mode"), cfg.Get("extra.only"))
+	want := fmt.Sprint(port2, "base-host", mode, "x")
+	if how == 1 {
+		got += fmt.Sprint(cfg.Get("cli.k"))
+		want += "v"
+	}
+	if got != want {
+		c.Fail("", fmt.Sprintf("sources added to a configure that already held settings: effective server.port/host/mode, extra.only = %s, the merge in loader order gives %s", got, want), detail)
+		return
+	}
+	c.Nontrivial(fmt.Sprint("preloaded|", how, mode))
+}
+
+// argsOverlap: the pairs of one command line that address overlapping parts of the key tree under different written
+// keys (a section literal followed by refinements of single entries, or an entry followed by a replacement of its
+// section) are applied in the order written: within one source too, the later one wins.
+func (p c15) argsOverlap(c *core.Ctx) {
+	p1, p2, size := 5000+c.Rng.Intn(100), 6000+c.Rng.Intn(100), 1+c.Rng.Intn(50)
+	var args []string
+	var want string
+	form := c.Rng.Intn(3)
+	switch form {
+	case 0:
+		args = []string{fmt.Sprintf("--app.config=db=map[host:cli-db port:%d]", p1), fmt.Sprintf("--app.config=db.port=%d", p2), fmt.Sprintf("--app.config=db.pool.size=%d", size)}
+		want = fmt.Sprint("cli-db ", p2, " ", size)
+	case 1:
+		args = []string{fmt.Sprintf("--app.config=db.port=%d", p1), fmt.Sprintf("--app.config=db.pool.size=%d", size), "--app.config=db=map[host:other-db]"}
+		want = "other-db <nil> <nil>"
+	default:
+		args = []string{fmt.Sprintf("--app.config=db.port=%d", p1), "--app.config=db.host=h1", fmt.Sprintf("--app.config=db.pool=map[size:%d]", size), fmt.Sprintf("--app.config=db.pool.size=%d", size+1)}
+		want = fmt.Sprint("h1 ", p1, " ", size+1)
+	}
+	if c.Rng.Intn(2) == 0 {
+		args = append([]string{"prog", "--verbose"}, args...)
+	}
+	cfg := configure.NewConfigure()
+	cfg.SetBinder(binder.NewViperBinder("yaml"))
+	if c.Rng.Intn(2) == 0 {
+		// (an earlier source: what the command line's own document does not contain stays visible - deep merge)
+		cfg.AddLoaders(loader.NewRawLoader([]byte("db:\n  host: file-db\n  port: 1\n")))
+		if form == 1 {
+			want = "other-db 1 <nil>"
+		}
+	}
+	cfg.AddLoaders(loader.NewArgsLoader(args))
+	var err error
+	func() {
+		defer func() {
+			if r := recover(); r != nil {
+				err = fmt.Errorf("panic: %v", r)
+			}
+		}()
+		err = cfg.Initialize()
+	}()
+	c.AddEvaluations(1)
+	c.Count("overlapping_command_lines", 1)
+	if err != nil {
+		c.Fail("", fmt.Sprintf("command line %v: %v", args, err), nil)
+		return
+	}
+	got := fmt.Sprint(cfg.Get("db.host"), " ", cfg.Get("db.port"), " ", cfg.Get("db.pool.size"))
+	if got != want {
+		c.Fail("", fmt.Sprintf("command line %v applied in the order written gives db.host / db.port / db.pool.size = %s; the effective configuration has %s", args, want, got), nil)
+		return
+	}
+	c.Nontrivial(fmt.Sprint("argsoverlap|", form, want))
+}
+
 func (p c15) Run(c *core.Ctx) {
+	if c.Index%12 == 2 {
+		p.argsOverlap(c)
+		return
+	}
+	if c.Index%12 == 10 {
+		p.preloaded(c)
+		return
+	}
 	if c.Index%12 == 4 {
 		p.profile(c)
 		return
